@@ -155,7 +155,70 @@ func consume(b *ring, op string, seed uint64, pos, n int64, chunk int) error {
 
 // TestC14Seq: single-threaded enumeration of sizes x start offsets x chunk
 // sizes x producer op x consumer op.
+// c14Sizes: rings asked for with sizes an application might configure (BufferSize need not be a power
+// of two). The effective size must be the next power of two (at least 16 KiB), and a stream of three
+// ring sizes pushed through in odd chunks must come out unchanged.
+func c14Sizes() {
+	for _, req := range []int64{1, 100, 16383, 16384, 16385, 20000, 24576, 32767, 32768, 32769, 50000, 65535, 65537, 100000, 262143, 262144, 300000} {
+		id := fmt.Sprintf("c14/size/%d", req)
+		if !out.Only(id) {
+			continue
+		}
+		out.Begin(id, uint64(req), nil)
+		want := int64(16384)
+		for want < req {
+			want *= 2
+		}
+		b := newRing(req)
+		detail := map[string]interface{}{"requested": req, "expected_effective": want}
+		if eff := b.VerifBufferSize(); eff != want {
+			out.Violation("c14:ring-size", fmt.Sprintf("a ring asked for with %d bytes has an effective size of %d (expected %d)", req, eff, want), detail)
+			out.End()
+			continue
+		}
+		seed := uint64(req) * 77
+		var wpos, rpos int64
+		chunk := make([]byte, 4093)
+		bad := false
+		for wpos < 3*want && !bad {
+			// fill up to the brim in odd chunks, then drain completely
+			for wpos-rpos+int64(len(chunk)) <= want {
+				fillStream(chunk, seed, wpos)
+				if n, err := b.Write(chunk); err != nil || n != len(chunk) {
+					out.Violation("c14:size-write", fmt.Sprintf("Write: n=%d err=%v", n, err), detail)
+					bad = true
+					break
+				}
+				wpos += int64(len(chunk))
+			}
+			for rpos < wpos && !bad {
+				n, err := b.Read(chunk)
+				if err != nil {
+					out.Violation("c14:size-read", err.Error(), detail)
+					bad = true
+					break
+				}
+				if k := verifyStream(chunk[:n], seed, rpos); k >= 0 {
+					out.Violation("c14:corrupt:odd-size", fmt.Sprintf("ring asked for with %d bytes: byte at stream position %d is wrong (%d bytes committed)", req, rpos+int64(k), wpos), detail)
+					bad = true
+					break
+				}
+				rpos += int64(n)
+			}
+		}
+		if !bad {
+			out.Count("c14.size_cases", 1)
+			out.Count("c14.size_bytes", rpos)
+			out.Class(fmt.Sprintf("size/%d", req))
+		}
+		out.End()
+	}
+}
+
 func TestC14Seq(t *testing.T) {
+	if mine(0) {
+		c14Sizes()
+	}
 	i := 0
 	for _, size := range []int64{16384, 32768} {
 		offsets := []int64{size - 2, size - 1, 0, 1, 8191, 8192, size - 8192, size - 8193, 3*size - 1}
@@ -297,7 +360,20 @@ func chunkSize(r *spec.Rand, dist string, size int64) int64 {
 }
 
 func c14Run(seed uint64, size, total int64, dist string, useReadFrom, useWriteTo, yields bool, params map[string]interface{}) {
-	b := newRing(size)
+	// the ring is asked for with the size an application would configure: in every third run a value
+	// that is not a power of two (BufferSize is documented to be rounded up); the effective size must
+	// be the next power of two, and everything below works with that
+	req := size
+	if sr := spec.NewRand(seed ^ 0x5151); sr.Intn(3) == 0 {
+		req = size/2 + 1 + int64(sr.Intn(int(size/2-1)))
+		out.Count("c14.conc.odd_requested_sizes", 1)
+	}
+	params["requested_size"] = req
+	b := newRing(req)
+	if eff := b.VerifBufferSize(); eff != size {
+		out.Violation("c14:ring-size", fmt.Sprintf("a ring asked for with %d bytes has an effective size of %d (expected the next power of two, %d): positions are mapped to cells by masking with size-1", req, eff, size), params)
+		return
+	}
 	var pblocks, cblocks, peekTmp int64
 	if !raceEnabled {
 		yieldTable.Store(b, func(point string) {
